@@ -1156,13 +1156,43 @@ func (ex *Exec) exec(s *State, fr *Frame, in ssa.Instruction) ([]*State, *stopPo
 		return nil, nil, &goPanic{msg}
 
 	case *ssa.Go:
-		return nil, nil, unsupported("go statement")
+		// sequential schedule (models_seq.go): run the goroutine to completion here, except one that
+		// waits in a select (never scheduled before the spawner returns)
+		fnv, args, err := ex.prepareCall(s, fr, &x.Call)
+		if err != nil {
+			return nil, nil, err
+		}
+		if f, ok := fnv.(*FuncV); ok && f.Fn != nil && hasSelect(f.Fn) {
+			ex.Funcs["go:not scheduled (waits in select) "+f.Fn.String()] = true
+			break
+		}
+		ex.Funcs["go:run to completion at the go statement"] = true
+		succ, err := ex.callValue(s, fr, nil, &x.Call, fnv, args)
+		if err != nil {
+			return nil, nil, err
+		}
+		return succ, nil, nil
 	case *ssa.Select:
 		return nil, nil, unsupported("select")
 	case *ssa.Send:
-		return nil, nil, unsupported("channel send")
+		ch, err := ex.get(s, fr, x.Chan)
+		if err != nil {
+			return nil, nil, err
+		}
+		v, err := ex.get(s, fr, x.X)
+		if err != nil {
+			return nil, nil, err
+		}
+		if err := ex.chanSend(s, ch, v); err != nil {
+			return nil, nil, err
+		}
 	case *ssa.MakeChan:
-		fr.Locals[x] = Poison{"chan"}
+		v, err := ex.makeChan(s, fr, x)
+		if err != nil {
+			fr.Locals[x] = Poison{"chan: " + err.Error()}
+		} else {
+			fr.Locals[x] = v
+		}
 
 	case *ssa.Call:
 		fnv, args, err := ex.prepareCall(s, fr, &x.Call)
